@@ -47,12 +47,17 @@ TMathFn == LET r == Events[l] IN
   /\ r.fn \in {"abs", "cbrt", "exp", "log", "log2", "log10", "pow", "sqrt"}
   /\ Flag(r.bad = 0, [cls |-> "mathfn", type |-> r.type, num |-> r.num \o ":" \o r.fn])
   /\ UNCHANGED seen
+(* C17: construction, SetValue and MutableValue store exactly the given numbers (full-precision values of the type) *)
+TMutator == LET r == Events[l] IN
+  /\ IsEvent("Mutator") /\ r.type \in DOMAIN Shapes /\ r.n > 0
+  /\ Flag(r.ctor_bad = 0 /\ r.set_bad = 0 /\ r.mutable_bad = 0, [cls |-> "mutator", type |-> r.type, num |-> r.num])
+  /\ UNCHANGED seen
 TFinish == /\ l = Len(Events) + 1 /\ l' = l + 1
            /\ JsonSerialize(IOEnv.OUT, [bad |-> bad, layout |-> Cardinality(seen.layout), cast |-> Cardinality(seen.cast),
                                          cmp |-> seen.cmp, cmpties |-> seen.cmpties, cmpsum |-> Cardinality(seen.cmpsum),
                                          replay |-> Cardinality(seen.replay)])
            /\ UNCHANGED <<bad, seen>>
-Next == TLayout \/ TCast \/ TCmp \/ TCmpSummary \/ TReplay \/ TArith \/ TMathFn \/ TFinish
+Next == TLayout \/ TCast \/ TCmp \/ TCmpSummary \/ TReplay \/ TArith \/ TMathFn \/ TMutator \/ TFinish
 Spec == Init /\ [][Next]_vars
 Accepted == TLCGet("stats").diameter - 2 = Len(Events)
 =============================================================================
